@@ -21,6 +21,7 @@ package ratelimit
 
 import (
 	"context"
+	"errors"
 	"fmt"
 	"net/netip"
 	"sort"
@@ -62,8 +63,10 @@ func vc09FlipBit(b []byte, pos int) {
 }
 
 var (
-	vc09Bases4 = []netip.Addr{netip.MustParseAddr("192.0.2.77"), netip.MustParseAddr("198.51.100.1"), netip.MustParseAddr("203.0.113.254")}
-	vc09Bases6 = []netip.Addr{netip.MustParseAddr("2001:db8:0:1::1"), netip.MustParseAddr("2001:db8:ffff:ffff:8000::"), netip.MustParseAddr("2001:db8:1:2:3:4:5:6")}
+	// The last base of each family is the all-zero address: a subnet key or an
+	// allowlist entry that an uninitialised value would match.
+	vc09Bases4 = []netip.Addr{netip.MustParseAddr("192.0.2.77"), netip.MustParseAddr("198.51.100.1"), netip.MustParseAddr("203.0.113.254"), netip.MustParseAddr("0.0.0.0")}
+	vc09Bases6 = []netip.Addr{netip.MustParseAddr("2001:db8:0:1::1"), netip.MustParseAddr("2001:db8:ffff:ffff:8000::"), netip.MustParseAddr("2001:db8:1:2:3:4:5:6"), netip.MustParseAddr("::")}
 )
 
 // vc09DrawAddr builds an address near one of a few bases: bits around the key
@@ -77,7 +80,7 @@ func vc09DrawAddr(t *rapid.T, kl4, kl6 int, p6 int) (ip netip.Addr) {
 	}
 
 	// Mostly the first base: floods need many events in one subnet.
-	bi := rapid.SampledFrom([]int{0, 0, 0, 1, 2}).Draw(t, "base")
+	bi := rapid.SampledFrom([]int{0, 0, 0, 0, 0, 0, 1, 1, 2, 3}).Draw(t, "base")
 	b := bases[bi].AsSlice()
 	nbits := 8 * len(b)
 	switch rapid.IntRange(0, 7).Draw(t, "variant") {
@@ -119,10 +122,12 @@ func vc09DrawPrefixes(t *rapid.T, kl4, kl6 int, label string) (ps []netip.Prefix
 	return ps
 }
 
+// vc09InPrefixes is the reference containment test: same family and equal
+// after masking both to the prefix length (done by hand, not by net/netip).
 func vc09InPrefixes(ip netip.Addr, lists ...[]netip.Prefix) bool {
 	for _, l := range lists {
 		for _, p := range l {
-			if p.Contains(ip) {
+			if p.Addr().BitLen() == ip.BitLen() && vc09Mask(p.Addr(), p.Bits()) == vc09Mask(ip, p.Bits()) {
 				return true
 			}
 		}
@@ -202,18 +207,48 @@ func vc09Req(qt uint16) *dns.Msg {
 	}
 }
 
-// vc09Resp builds a response to req whose packed length is at least size.
+// vc09Resp builds a response to req (question copied, no OPT) whose length
+// as counted by the limiter, Msg.Len, is exactly size whenever size is at least
+// 26 octets above the bare reply; otherwise the bare reply or the reply with
+// one empty TXT record.
 func vc09Resp(req *dns.Msg, size int) (resp *dns.Msg) {
 	resp = (&dns.Msg{}).SetReply(req)
+	if resp.Len() >= size {
+		return resp
+	}
+
+	txt := &dns.TXT{
+		Hdr: dns.RR_Header{Name: req.Question[0].Name, Rrtype: dns.TypeTXT, Class: dns.ClassINET, Ttl: 10},
+		Txt: []string{""},
+	}
+	resp.Answer = append(resp.Answer, txt)
 	for resp.Len() < size {
-		pad := min(size-resp.Len(), 200)
-		resp.Answer = append(resp.Answer, &dns.TXT{
-			Hdr: dns.RR_Header{Name: req.Question[0].Name, Rrtype: dns.TypeTXT, Class: dns.ClassINET, Ttl: 10},
-			Txt: []string{strings.Repeat("x", pad)},
-		})
+		last := len(txt.Txt) - 1
+		room := 255 - len(txt.Txt[last])
+		if room == 0 {
+			txt.Txt = append(txt.Txt, "")
+
+			continue
+		}
+
+		txt.Txt[last] += strings.Repeat("x", min(room, size-resp.Len()))
 	}
 
 	return resp
+}
+
+// vc09ReqPadded is vc09Req with an EDNS(0) padding option of pad octets, so
+// that the request can be larger than its response.
+func vc09ReqPadded(qt uint16, pad int) (req *dns.Msg) {
+	req = vc09Req(qt)
+	if pad > 0 {
+		opt := &dns.OPT{Hdr: dns.RR_Header{Name: ".", Rrtype: dns.TypeOPT}}
+		opt.SetUDPSize(1232)
+		opt.Option = append(opt.Option, &dns.EDNS0_PADDING{Padding: make([]byte, pad)})
+		req.Extra = append(req.Extra, opt)
+	}
+
+	return req
 }
 
 func vc09DrawQType(t *rapid.T) uint16 {
@@ -273,6 +308,20 @@ func (m *vc09FrozenModel) event(ip netip.Addr, qt uint16) (drop, allowlisted boo
 	return above, false, why
 }
 
+// vc09FailingAllowlist is an allowlist whose source can be made to fail.
+type vc09FailingAllowlist struct {
+	inner *DynamicAllowlist
+	err   error
+}
+
+func (a *vc09FailingAllowlist) IsAllowed(ctx context.Context, ip netip.Addr) (bool, error) {
+	if a.err != nil {
+		return false, a.err
+	}
+
+	return a.inner.IsAllowed(ctx, ip)
+}
+
 // vc09Op is one step of a frozen history, kept for the isolation replay.
 type vc09Op struct {
 	Kind    string // "init", "req", "update", "bad"
@@ -291,7 +340,7 @@ func (o vc09Op) String() string {
 	case "update":
 		return fmt.Sprintf("Update(dynamic=%v)", o.Dynamic)
 	case "bad":
-		return "IsRateLimited(invalid address)"
+		return "IsRateLimited(invalid address, or while the allowlist fails)"
 	default:
 		return fmt.Sprintf("query %s qtype=%d respsize=%d -> drop=%t allowlisted=%t", o.IP, o.QType, o.Size, o.drop, o.allow)
 	}
@@ -301,7 +350,7 @@ func TestVerifC09BackoffFrozen(t *testing.T) {
 	st := vstat.New("C09", "ratelimit.backoff.frozen",
 		"rapid histories (query with optional counted response | allowlist Update | invalid address) against Backoff with 1h intervals (time frozen) vs an exact per-subnet counter model, plus replay of one subnet's projection on a fresh limiter (isolation); non-trivial = some query was dropped by the window or by backoff and a later query passed (other subnet, or allowlisted since), distinct by (config, history)",
 		"dropped-then-later-pass", "backoff-entered", "dropped-in-backoff", "any-refused", "any-refused-allowlisted", "allowlisted-pass",
-		"allowlisted-in-flooded-subnet", "update-flips-verdict", "large-response-counted", "same-subnet-other-host", "neighbour-subnet-unaffected", "v6", "isolation-replay")
+		"allowlisted-in-flooded-subnet", "update-flips-verdict", "large-response-counted", "response-exactly-estimate", "response-one-below-estimate", "same-subnet-other-host", "neighbour-subnet-unaffected", "v6", "zero-address", "allowlist-error", "isolation-replay")
 	st.Finish(t)
 
 	ctx := context.Background()
@@ -314,7 +363,8 @@ func TestVerifC09BackoffFrozen(t *testing.T) {
 		persistent := vc09DrawPrefixes(t, c.KL4, c.KL6, "persistent")
 		dynamic := vc09DrawPrefixes(t, c.KL4, c.KL6, "dynamic")
 		al := NewDynamicAllowlist(persistent, dynamic)
-		l := c.build(al)
+		fal := &vc09FailingAllowlist{inner: al}
+		l := c.build(fal)
 		m := &vc09FrozenModel{c: c, persistent: persistent, dynamic: dynamic, keys: map[string]*vc09FrozenKey{}}
 
 		ops := []vc09Op{{Kind: "init", Dynamic: dynamic}}
@@ -344,6 +394,18 @@ func TestVerifC09BackoffFrozen(t *testing.T) {
 				al.Update(dynamic)
 				m.dynamic = dynamic
 				ops = append(ops, vc09Op{Kind: "update", Dynamic: dynamic})
+			case k == 2:
+				// The allowlist's source fails: the error is reported, nothing is
+				// dropped and nothing is counted.
+				fal.err = errors.New("scripted allowlist failure")
+				ip := vc09DrawAddr(t, c.KL4, c.KL6, p6)
+				drop, allow, err := l.IsRateLimited(ctx, vc09Req(dns.TypeA), ip)
+				fal.err = nil
+				ops = append(ops, vc09Op{Kind: "bad"})
+				classes["allowlist-error"] = true
+				if err == nil || drop || allow {
+					t.Fatalf("allowlist failure for %s not reported (drop=%t allowlisted=%t err=%v)\n%s", ip, drop, allow, err, hist())
+				}
 			case k == 1:
 				drop, allow, err := l.IsRateLimited(ctx, vc09Req(dns.TypeA), netip.Addr{})
 				ops = append(ops, vc09Op{Kind: "bad"})
@@ -427,6 +489,10 @@ func TestVerifC09BackoffFrozen(t *testing.T) {
 					classes["v6"] = true
 				}
 
+				if ip.IsUnspecified() {
+					classes["zero-address"] = true
+				}
+
 				// The caller counts the response of every query that passed and was
 				// not allowlisted.
 				if !drop && !allow && size > 0 {
@@ -439,6 +505,13 @@ func TestVerifC09BackoffFrozen(t *testing.T) {
 
 					if extra > 0 {
 						classes["large-response-counted"] = true
+					}
+
+					switch uint64(resp.Len()) % c.Est {
+					case 0:
+						classes["response-exactly-estimate"] = true
+					case c.Est - 1:
+						classes["response-one-below-estimate"] = true
 					}
 				}
 			}
